@@ -335,6 +335,7 @@ class Skedder(object):
             #its generator is responsible for releasing resources
 
             console.terse("Aborting all ready Taskers ...\n")
+            failure = None  # first exception raised by a tasker while aborting
             for i in range(len(ready)): #run each ready tasker once
                 tasker,retime,period = ready.popleft() #pop it off
 
@@ -343,8 +344,15 @@ class Skedder(object):
                     console.terse("Tasker '{0}' aborted\n".format(tasker.name))
                 except StopIteration: #generator returned instead of yielded
                     console.terse("Tasker '{0}' generator already exited\n".format(tasker.name))
+                except Exception as ex:  # still abort the remaining taskers
+                    console.terse("Tasker '{0}' failed while aborting\n".format(tasker.name))
+                    if failure is None:
+                        failure = ex
 
                 #tasker.runner.close() #kill generator
+
+            if failure is not None:
+                raise failure
 
         if console._verbosity >= console.Wordage.concise:
             for house in self.houses:
